@@ -299,6 +299,7 @@ func stickyAnalyse(p *Prog, res *callResolver, pr stickyPair, passing map[sticky
 					}
 				case *ssa.Return:
 					for i, r := range t.Results {
+						r = unspillResult(t, r)
 						rt := fn.Signature.Results().At(i).Type()
 						switch {
 						case isFrameType(rt):
